@@ -363,6 +363,16 @@ Fixpoint run (f : fmt) (src : state) (p : prog) : option state :=
       end
   end.
 
+(* get_buffer on a LAZY FASTQ table whose quality column was replaced: dump_csv.get_column's Encoding branch only handles an
+   EncodedRaggedArray; a quality column is a RaggedArray of ints (what table.quality returns, what as_encoded_array(..,
+   QualityEncoding) returns) -> np.asarray on it raises ValueError / TypeError: the write is refused.  (The eager path,
+   FastQBuffer.from_data, decodes the RaggedArray itself and works.)  The writer returns before get_buffer on an empty table. *)
+Definition refused_lazy (f : fmt) (x : ext) (sv : setv) : bool :=
+  match f, sv_get sv 2, x_es x with
+  | FFastq, Some _, _ :: _ => true
+  | _, _, _ => false
+  end.
+
 (* get_buffer + writer: bytes after the header *)
 Definition write (v : variant) (f : fmt) (s : state) : option (list Z) :=
   match s with
@@ -373,7 +383,7 @@ Definition write (v : variant) (f : fmt) (s : state) : option (list Z) :=
                 | [] => Some []      (* the writer returns before get_buffer when the table is empty *)
                 | _ => None          (* supports_modified_write = False *)
                 end
-      | _ => Some (concat (map (join_row v f) (lazy_rows f x sv)))
+      | _ => if refused_lazy f x sv then None else Some (concat (map (join_row v f) (lazy_rows f x sv)))
       end
   | SEager rows => Some (concat (map (join_row v f) rows))
   end.
